@@ -68,4 +68,21 @@ def sshl (b x n : Nat) : Option Nat := if n < b ∧ x < 2 ^ (b - 1) ∧ x <<< n 
 /-- `x >> n` at a signed type: defined here for non-negative `x` only (negative: implementation-defined, not used) -/
 def sshr (b x n : Nat) : Option Nat := if n < b ∧ x < 2 ^ (b - 1) then some (x >>> n) else none
 
+/-- `memcpy(dst, src, n)` with the destination in memory and the source a separate byte list (a caller's buffer, the bytes of a local
+    variable, a constant array): undefined unless `n` bytes are readable in the source and writable at the destination -/
+def wrBytes (m : Bytes) (a : Nat) (src : Bytes) (n : Nat) : Option Bytes :=
+  if n ≤ src.length ∧ a + n ≤ m.length then some (writeAt m a (src.take n)) else none
+
+/-- `std::string_view::find(c)` on the view `(p, n)`: index of the first byte equal to `c`, or `npos`; the whole view must be readable
+    (the library implementation stops at the first match; requiring the whole view is the conservative reading) -/
+def svFind (m : Bytes) (sv : Nat × Nat) (c : Nat) : Option Nat :=
+  if sv.1 + sv.2 ≤ m.length then
+    let s := slice m sv.1 sv.2
+    let k := (s.takeWhile (fun b => b.toNat != c)).length
+    some (if k < sv.2 then k else 18446744073709551615)
+  else none
+
+/-- `std::string_view::remove_suffix(k)`: undefined for `k > size()` -/
+def svRemoveSuffix (sv : Nat × Nat) (k : Nat) : Option (Nat × Nat) := if k ≤ sv.2 then some (sv.1, sv.2 - k) else none
+
 end AsamCmp.Src
